@@ -201,6 +201,11 @@ pub fn explore<const N: usize>(ctx: &Ctx, t: &Target, chunks: &[Vec<u8>], c09: b
                         if idx > N {
                             continue;
                         }
+                        if buf[..idx].contains(&0) {
+                            // not a state of the model (pending bytes never contain a sentinel): only reachable
+                            // through a transition that has already been reported
+                            continue;
+                        }
                         let (want, npend) = predict(N, &shape, &buf[..idx], chunk);
                         let (nb, ni) = acc.verif_state();
                         let nk = key_of::<N>(nb, ni);
@@ -220,9 +225,14 @@ pub fn explore<const N: usize>(ctx: &Ctx, t: &Target, chunks: &[Vec<u8>], c09: b
                             ctx.violation("acc-index", format!("idx {} > N {}", ni, N), order, case(Value::Null));
                             continue;
                         }
+                        // a transition that disagrees with the model is reported once and not explored further: the
+                        // real state it leads to is outside the model's state space
+                        let mut diverged = false;
                         if !obs.rem_ok {
+                            diverged = true;
                             ctx.violation("acc-remainder", "returned remainder is not a suffix of the chunk".into(), order, case(Value::Null));
                         } else if obs != want {
+                            diverged = true;
                             ctx.violation(
                                 if c09 { "acc-step-c09" } else { "acc-step" },
                                 format!("feed returned {:?}, model predicts {:?}", obs, want),
@@ -230,6 +240,7 @@ pub fn explore<const N: usize>(ctx: &Ctx, t: &Target, chunks: &[Vec<u8>], c09: b
                                 case(Value::Null),
                             );
                         } else if nb[..ni] != npend[..] {
+                            diverged = true;
                             ctx.violation(
                                 "acc-pending",
                                 format!("buffered bytes {} after the call, model pending {}", hex(&nb[..ni]), hex(&npend)),
@@ -249,7 +260,7 @@ pub fn explore<const N: usize>(ctx: &Ctx, t: &Target, chunks: &[Vec<u8>], c09: b
                             }
                         }
                         // keep only states not known before this level (parents is read-only here)
-                        if !parents.contains_key(&nk) {
+                        if !diverged && !parents.contains_key(&nk) {
                             succ.push((nk, k, ci as u32));
                         }
                     }
@@ -713,7 +724,9 @@ pub fn run(ctx: &Ctx, c09: bool) {
                 if !ctx.quick() && $n <= 5 {
                     let (u, ok) = sr::unique_states::<$n>(&t, &chunks, c09);
                     part["stateright_unique_states"] = json!(u);
-                    if u != g.states || !ok {
+                    // on a tree that violates the property the own BFS stops at diverged transitions while the
+                    // stateright model follows the real code: only compare when nothing has been reported
+                    if (u != g.states || !ok) && ctx.violations_snapshot().is_empty() {
                         ctx.machinery(format!("explorer disagreement: own BFS {} states, stateright {} (N={}, {})", g.states, u, $n, t.name()));
                     }
                 }
